@@ -113,6 +113,89 @@ def monitor(am, engine, ops, snaps):
     return out[:1]
 
 
+# ---- an actor that is DONE (top-level final state) but still owns children / pending delayed sends: stop() of its parent
+#      must still reach it and everything below it (third-round seeded change C14-C skipped children that are not `running`)
+def finished_child_family(rng, n):
+    from harness import actors
+    cases = []
+    for i in range(n):
+        steps = [("do", 0, 1, [("spawn", rng.choice(["builtin", "plain"]), "w", rng.choice([None, "worker"]), rng.choice([None, "sysw"]))])]
+        ops = [("spawn", rng.choice(["builtin", "plain"]), "kid", rng.choice([None, "k"]), None)]
+        if rng.random() < 0.6:
+            ops.append(("sendParent", 5, rng.choice([300, 700]), rng.choice([None, "late"])))
+        if rng.random() < 0.5:
+            ops.append(("spawn", "plain", "kid2", None, rng.choice([None, "sysk"])))
+        fin = rng.random() < 0.8
+        steps.append(("do", 1, 2, ops + ([("finish",)] if fin else [])))
+        steps.append(("adv", 40))
+        if rng.random() < 0.7:
+            # the grandchild schedules something that is due after the stop
+            steps.append(("do", 2, 3, [("sendParent", 7, rng.choice([200, 500]), None)] +
+                          ([("spawn", "plain", "w1", None, None)] if rng.random() < 0.4 else [])))
+            steps.append(("adv", 80))
+        if not fin and rng.random() < 0.5:
+            steps.append(("do", 1, 4, [("finish",)]))
+            steps.append(("adv", 120))
+        steps.append(("stop", rng.choice([0, 0, 0, 1])))
+        steps.append(("adv", 1500))
+        steps.append(("adv", 2500))
+        cases.append((steps, ("async", "sync")[i % 2], None))
+    return cases
+
+
+def finished_monitor(steps, res):
+    out = []
+    tr = res.get("trace") or []
+    if len(tr) != len(steps) or any(s and s[0][1] in ("TIMEOUT", "harness-exc") for s in res.get("snaps", []) if s):
+        return out
+    k = next(i for i, st in enumerate(steps) if st[0] == "stop")
+    who = steps[k][1]
+    before = tr[k - 1] if k else tr[k]
+    n = len(tr[k]["status"])
+    par = tr[k]["parent"]
+
+    def below(j):
+        while j is not None:
+            if j == who:
+                return True
+            j = par[j] if j < len(par) else None
+        return False
+    sub = [j for j in range(n) if below(j)]
+    for i in range(k, len(tr)):
+        for j in sub:
+            if j < len(tr[i]["status"]) and tr[i]["status"][j] not in ("stopped", "uninitialized"):
+                out.append(("after stop() of actor %d returned, its descendant actor %d has status %r (step %d): stop() must stop every "
+                            "descendant actor, also below a child that had already finished" % (who, j, tr[i]["status"][j], i), None))
+                return out[:1]
+            if j < len(tr[i]["sends"]) and tr[i]["sends"][j]:
+                out.append(("after stop() of actor %d, actor %d below it still has %d delayed send(s) registered" % (who, j, tr[i]["sends"][j]), None))
+                return out[:1]
+        if i > k and tr[i]["nin"][:n] != tr[k]["nin"][:n]:
+            out.append(("an actor received something after stop() of actor %d had returned: inbox sizes %s -> %s"
+                        % (who, tr[k]["nin"], tr[i]["nin"]), None))
+            return out[:1]
+    return out
+
+
+def finished_component(cases):
+    from concurrent.futures import ProcessPoolExecutor
+    from harness import actors
+    with ProcessPoolExecutor(max_workers=14) as ex:
+        results = list(ex.map(actors.run_impl_case, cases, chunksize=4))
+    fails, stats = [], dict(cases=len(cases), finished=0, judged=0)
+    for (steps, engine, _), res in zip(cases, results):
+        tr = res.get("trace") or []
+        if len(tr) == len(steps):
+            stats["judged"] += 1
+            k = next(i for i, st in enumerate(steps) if st[0] == "stop")
+            if "done" in tr[k - 1]["status"]:
+                stats["finished"] += 1
+        for what, sig in finished_monitor(steps, res):
+            fails.append(dict(case=dict(steps=[list(map(lambda x: list(x) if isinstance(x, (list, tuple)) else x, st)) for st in steps],
+                                        engine=engine, finished_child=True), what=what, signature=sig))
+    return fails, stats
+
+
 def run(rep, ctx):
     from concurrent.futures import ProcessPoolExecutor
     rng = random.Random(ctx["seed"] * 7919 + 14)
@@ -175,6 +258,9 @@ def run(rep, ctx):
     disagreements += adis
     failures += afails
     rep.coverage["components"]["K-actor (stop silences delayed sends)"] = dict(scenarios=astats["cases"], steps=astats["steps"], disagreements=len(adis))
+    ffails, fstats = finished_component(finished_child_family(rng, 240 if big else 60))
+    failures += ffails
+    rep.coverage["components"]["monitor: stop() below a finished child (implementation only)"] = fstats
     core.decide(rep, ctx["proof"], disagreements, failures, None)
     rep.assumptions += ["liveness of OS threads / asyncio tasks after stop() is observed through the interpreter's own registries (task manager, "
                         "timer table) and by letting virtual time pass; it is monitored, not proved"]
@@ -183,6 +269,18 @@ def run(rep, ctx):
 def replay(payload):
     import base64, pickle
     case = payload.get("case") or (payload.get("first_disagreement") or {}).get("case")
+    if case and case.get("finished_child"):
+        from harness import actors
+        def tup(x):
+            return tuple(tup(y) for y in x) if isinstance(x, list) else x
+        steps = [tuple(st[:3]) + ([tup(o) for o in st[3]],) if st[0] == "do" else tuple(st) for st in case["steps"]]
+        res = actors.run_impl_case((steps, case["engine"], None))
+        for st, t in zip(steps, res.get("trace") or []):
+            print(st, t["status"], t["nin"], t["sends"])
+        bad = finished_monitor(steps, res)
+        for b in bad:
+            print("MONITOR:", b)
+        return 1 if bad else 0
     if case and "steps" in case:
         from harness.props import c15
         return c15.replay(payload)
